@@ -63,7 +63,18 @@ def main() -> None:
             src = ""
             cond = "lambda {}: all(is_bad(e) for e in {})".format(", ".join(cond_params), names[0])
         kw = "" if c["default_repr"] else ", a_repr=A_REPR"
-        src += "@icontract.require({}{})\ndef f({}):\n    return 1\n".format(cond, kw, ", ".join(names))
+        role = c.get("role", "pre")
+        if role == "inv":
+            if c["flavour"] == "named":
+                src = "def cond(self):\n    return False\n"
+            else:
+                cond = "lambda self: is_bad(self.{})".format(names[0])
+            src += ("@icontract.invariant({}{})\nclass K:\n    def __init__(self, {}):\n        self.{} = {}\n"
+                    "    def __repr__(self):\n        return 'K(' + 'r' * 70 + ')'\n"
+                    "def f({}):\n    return K({})\n").format(cond, kw, names[0], names[0], names[0], names[0], names[0])
+        else:
+            src += "@icontract.{}({}{})\ndef f({}):\n    return 1\n".format(
+                "require" if role == "pre" else "ensure", cond, kw, ", ".join(names))
         fname = "<icv-msg-{}>".format(c["mid"])
         import linecache
         linecache.cache[fname] = (len(src), None, src.splitlines(True), fname)
@@ -84,6 +95,8 @@ def main() -> None:
                 msgs.append("EXC " + repr(exc))
         the_repr = ic.aRepr if c["default_repr"] else a_repr
         rendered = {n: the_repr.repr(v) for n, v in values.items()}
+        if role == "inv":
+            rendered["self"] = the_repr.repr(ns["K"].__new__(ns["K"]))
         first = None
         if c["flavour"] == "quant":
             try:
